@@ -105,6 +105,68 @@ pub fn parse_sc(sc_tok: &str, w_tok: &str) -> Result<ScSpec, String> {
     Ok(ScSpec { go, ge, clips, f: TabFn { alpha, idx, tab } })
 }
 
+/// `parse_sc` for the parametric envelope `AlignEnv` of `Thm/C01.lean` (`custom_i32_correct`): gap penalties `<= 0`,
+/// clip penalties in `[MIN_SCORE, 0]`, table entries any `i32` of absolute value `<= 2^30`; the size condition
+/// `2 (m + n + 1) B < -MIN_SCORE` is checked per call by `in_envelope`.
+pub fn parse_sc_env(sc_tok: &str, w_tok: &str) -> Result<ScSpec, String> {
+    let p: Vec<&str> = sc_tok.split(':').collect();
+    if p.len() != 7 || p[0] != "sc" {
+        return Err("sc token".into());
+    }
+    let go: i32 = parse(p[1])?;
+    let ge: i32 = parse(p[2])?;
+    if go > 0 || ge > 0 || go < -(1 << 30) || ge < -(1 << 30) {
+        return Err("gap penalties outside [-2^30,0]".into());
+    }
+    let mut clips = [0i32; 4];
+    for k in 0..4 {
+        let c: i32 = if p[3 + k] == "min" { MIN_SCORE } else { parse(p[3 + k])? };
+        if !(MIN_SCORE..=0).contains(&c) {
+            return Err("clip penalty outside [MIN_SCORE,0]".into());
+        }
+        clips[k] = c;
+    }
+    let q: Vec<&str> = w_tok.split(':').collect();
+    if q.len() != 3 || q[0] != "w" {
+        return Err("w token".into());
+    }
+    let alpha = unhex(q[1])?;
+    if alpha.is_empty() || alpha.len() > 8 {
+        return Err("alphabet size".into());
+    }
+    let mut idx = vec![usize::MAX; 256];
+    for (i, &c) in alpha.iter().enumerate() {
+        if idx[c as usize] != usize::MAX {
+            return Err("alphabet repeats a symbol".into());
+        }
+        idx[c as usize] = i;
+    }
+    let tab: Vec<i32> = parse_list(q[2], ',')?;
+    if tab.len() != alpha.len() * alpha.len() || tab.iter().any(|v| (*v as i64).abs() > (1 << 30)) {
+        return Err("table".into());
+    }
+    Ok(ScSpec { go, ge, clips, f: TabFn { alpha, idx, tab } })
+}
+
+/// the bound `B` of `AlignEnv`: largest absolute value of a table entry, of `gap_open`, `gap_extend`; at least 1
+pub fn env_bound(sc: &ScSpec) -> i64 {
+    let mut b: i64 = 1;
+    for v in sc.f.tab.iter().chain([sc.go, sc.ge].iter()) {
+        b = b.max((*v as i64).abs());
+    }
+    b
+}
+
+/// largest `B` with `2 (m + n + 1) B < -MIN_SCORE`
+pub fn env_max_bound(m: usize, n: usize) -> i64 {
+    (-(MIN_SCORE as i64) - 1) / (2 * (m + n + 1) as i64)
+}
+
+/// `AlignEnv` of `Thm/C01.lean` for a call on sequences of lengths `m`, `n` (with `B` taken over the whole table)
+pub fn in_envelope(sc: &ScSpec, m: usize, n: usize) -> bool {
+    env_bound(sc) <= env_max_bound(m, n)
+}
+
 pub fn ops_string(ops: &[AlignmentOperation]) -> String {
     if ops.is_empty() {
         return "-".into();
